@@ -210,13 +210,33 @@ func returnedClosure(fn *ssa.Function) *ssa.Function {
 		}
 		for _, o := range an.Origins(ret.Results[0], an.StepValue) {
 			if mc, ok := o.(*ssa.MakeClosure); ok {
-				found = mc.Fn.(*ssa.Function)
+				found = unwrapBound(mc.Fn.(*ssa.Function))
 			} else if f, ok := o.(*ssa.Function); ok {
-				found = f // a literal without captures, or a named function returned as the renderer
+				found = unwrapBound(f) // a literal without captures, or a named function returned as the renderer
 			}
 		}
 	})
 	return found
+}
+
+// unwrapBound: a method value x.m is a closure over a synthetic wrapper that only calls the
+// method; the role belongs to the method.
+func unwrapBound(fn *ssa.Function) *ssa.Function {
+	for depth := 0; depth < 3 && fn != nil && fn.Synthetic != "" && fn.Blocks != nil; depth++ {
+		var callee *ssa.Function
+		n := 0
+		an.EachInstr(fn, func(in ssa.Instruction) {
+			if c, ok := in.(*ssa.Call); ok {
+				n++
+				callee = c.Call.StaticCallee()
+			}
+		})
+		if n != 1 || callee == nil {
+			return fn
+		}
+		fn = callee
+	}
+	return fn
 }
 
 func (r *Roles) resolveTags(p *an.Prog) {
